@@ -150,6 +150,15 @@ class SymList:
 
 
 # ---------------------------------------------------------------------------------------------- the graph fragment
+def _remove_identical(lst, entry):
+    """remove THE entry object (list.remove compares with ==, which on entries mixing z3 ids and template names is not a bool)"""
+    for k, x in enumerate(lst):
+        if x is entry:
+            del lst[k]
+            return
+    raise ValueError("entry not in list")
+
+
 class SymGraph:
     def __init__(self):
         self.nodes = []  # [node, attrs]
@@ -221,7 +230,7 @@ def _attr(interp, g: SymGraph, attr):
         for e in i.iterate(ebunch):
             ex = g.find_edge(i, e)
             if ex is not None:
-                g.edges.remove(ex)
+                _remove_identical(g.edges, ex)
                 g.log.append(("remove_edge", e[0], e[1], e[2]))
             # networkx silently ignores absent edges
 
@@ -232,9 +241,9 @@ def _attr(interp, g: SymGraph, attr):
         g._require_closed(i, n, "remove_node")
         for e in list(g.edges):
             if decide_eq(i, e[0], n) or decide_eq(i, e[1], n):
-                g.edges.remove(e)
+                _remove_identical(g.edges, e)
                 g.log.append(("remove_edge", e[0], e[1], e[2]))
-        g.nodes.remove(ent)
+        _remove_identical(g.nodes, ent)
         g.log.append(("remove_node", n))
 
     def in_edges(i, nbunch=None, keys=False, data=False):
